@@ -773,7 +773,11 @@ impl DtlsInner {
                         (msg, raw_msg)
                     };
 
-                    ctx.recv_message_seq += 1;
+                    // message_seq is a 16-bit field: a peer that makes us count past it
+                    // is not running a handshake. Abort instead of overflowing.
+                    ctx.recv_message_seq = ctx.recv_message_seq.checked_add(1).ok_or_else(|| {
+                        anyhow::anyhow!("DTLS handshake message sequence exhausted")
+                    })?;
 
                     if processing_msg.msg_type != HandshakeType::Finished
                         && processing_msg.msg_type != HandshakeType::HelloRequest
